@@ -1181,7 +1181,12 @@ pub fn run_bin(prop: &str) {
                         }
                         nt = rt[1] != "none";
                     }
-                    _ => {}
+                    // any other operation of the session (clock, fee-state updates, liquidity, ...) ends the "right after the
+                    // order" window: a later `chk` at the same prices speaks about a different state (time may have passed)
+                    _ => {
+                        if after_inc.as_ref().map(|k| k.0 == sid).unwrap_or(false) { after_inc = None; }
+                        if after_dec.as_ref().map(|k| k.0 == sid).unwrap_or(false) { after_dec = None; }
+                    }
                 }
             }
             // ---------------- C10: open + immediate full close at unchanged prices
